@@ -370,6 +370,7 @@ func runSeq(c Case) Out {
 	cc := newConn(c, db)
 	out.NodeOf = probe(cc, c.Nodes)
 	ctx := context.Background()
+	delFailed := false
 	for _, op := range c.Ops {
 		db.qi, db.qp = 0, 0
 		o := OpObs{}
@@ -442,6 +443,12 @@ func runSeq(c Case) Out {
 		case "tick":
 			for i := 0; i < num(op[1]); i++ {
 				tk.c <- time.Now()
+				// the wheel holds a timer only after a DEL failed in this case; without one a
+				// tick runs no callback and the (costly) goroutine census is skipped
+				if !delFailed {
+					wheel.RemoveTimer(sentinel)
+					continue
+				}
 				if !settle() {
 					out.Err = "cleaner did not quiesce"
 					return out
@@ -452,9 +459,12 @@ func runSeq(c Case) Out {
 			out.Err = "unknown op " + op[0].(string)
 			return out
 		}
-		if !settle() {
-			out.Err = "did not quiesce"
-			return out
+		switch op[0].(string) {
+		case "exec", "del":
+			// AddCleanTask hands the timer to the wheel's loop synchronously (unbuffered channel)
+			if faulted[0] || faulted[1] {
+				delFailed = true
+			}
 		}
 		pad()
 		o.R = classify(err)
